@@ -51,6 +51,8 @@ Definition spec_loadprint (l : list Z) : list (list Z) :=
     match rd_many rd_instr (Z.to_nat n) t with
     | Some (code, _) =>
       [60 :: of_text (loadprint (Z.to_N style) (c_mode cfg =? 0)%N (c_size cfg) code start);
+       (* the canonical layout itself (the text C09_assembler_reads_canonical_partial speaks about) *)
+       61 :: of_text (canon_print (c_mode cfg =? 0)%N (Z.odd style) (c_size cfg) code start);
        [62; 0; start; Z.of_nat (length code)] ++ flat_map enc_instr code]
     | None => [[0]]
     end
